@@ -1,9 +1,26 @@
 (* C07 Leader completeness
-   Full-strength statement: C07_statement (Cluster/Statements.v). Proved so far: the theorems below; what is
-   not yet proved is decided on every run by the lock-step co-simulation (model = implementation on every
-   explored schedule) together with the monitors run on the implementation's own observations. *)
-From RaftV Require Import Cluster.Statements Proofs.RVSpec Proofs.AESpec Proofs.ElectSpec Proofs.CommitSpec Proofs.ReplySpec.
+   Full-strength statement: C07_statement (Cluster/Statements.v; "later leader" = leader of a term above the
+   term in which the entry was known committed).  Proved so far: the second half at cluster level
+   (C07_leader_never_overwrites: the log of the winner of a term only grows as long as its persistent term is
+   that term - while it leads and after a crash and restart) and the node-level theorems below; the first half
+   (a new leader already holds every committed entry) is not proved and is decided on every run by the lock-step
+   co-simulation together with the monitor run at the first observation of every new leader. *)
+From RaftV Require Import Cluster.Statements Proofs.RVSpec Proofs.AESpec Proofs.ElectSpec Proofs.CommitSpec Proofs.ReplySpec Proofs.LeaderLog.
 Open Scope N_scope.
+
+(* C07 "...and never overwrites it", cluster level, every schedule without membership changes and snapshots:
+   between any two points of an execution, the log of a node that leads at the first point has only been
+   extended at the second point if its persistent term is still the term it led (crashes at any storage write,
+   restarts, any AppendEntries request it receives in between included). *)
+Theorem C07_leader_never_overwrites : forall ids boot et ld ls1 ls2,
+  static (ls1 ++ ls2) = true -> nosnap (ls1 ++ ls2) = true ->
+  let w1 := run (init_world ids boot et ld) ls1 in
+  let w2 := run w1 ls2 in
+  forall n n', In n (w_nodes w1) -> n_role n = Leader -> n_frozen n = false ->
+    In n' (w_nodes w2) -> n_id n' = n_id n -> n_pterm n' = n_term n ->
+    exists es, n_log n' = n_log n ++ es.
+Proof. exact leader_never_overwrites. Qed.
+Print Assumptions C07_leader_never_overwrites.
 
 (* RequestVote, every voter state x every request *)
 Theorem C07_prevote_pure : forall now n q, rv_prevote q = true -> fst (h_request_vote now n q) = n.
